@@ -34,11 +34,12 @@ def acquire_sites(repo):
     return out
 
 
-def closes_transport(repo, cg, fi, call, attr, depth=2):
+def closes_transport(repo, cg, fi, call, attr, depth=2, recv=None):
     """Does this call close the endpoint held in self.<attr>?  Directly
-    (`self.<attr>.close()`) or through a resolved callee that closes `.transport`."""
+    (`self.<attr>.close()`, also through a local alias: `recv` is the receiver with single-definition locals
+    expanded) or through a resolved callee that closes `.transport`."""
     nm = call_name(call)
-    r = receiver(call) or ""
+    r = recv or receiver(call) or ""
     if nm in ("close", "abort") and (r == f"self.{attr}" or r.endswith(".transport") or r.endswith("._transport")):
         return True
     if depth <= 0:
@@ -87,7 +88,13 @@ def check(ctx):
                             if m.name != "__init__":
                                 drops.append((m, g, n))
                 for c in n.calls():
-                    if closes_transport(repo, cg, m, c, attr):
+                    recv = None
+                    if isinstance(c.func, ast.Attribute):
+                        try:
+                            recv = ast.unparse(g.expand(c.func.value, at=n))
+                        except RecursionError:
+                            recv = None
+                    if closes_transport(repo, cg, m, c, attr, recv=recv):
                         closers.append((m, g, n))
         ctx.ob("R1", f"{key}::has-close", bool(closers),
                f"{cls.name} opens a UDP endpoint into self.{attr} ({fi.qual}) but no method of the class closes it (transport.close() is never called: the socket leaks on every reset)",
@@ -380,11 +387,8 @@ def reset_survives_self_cancel(ctx, repo, rule):
     reset = repo.method("GeckoAsyncSpaMan", "async_reset")
     gr = cfg_of(reset)
     con = repo.method("GeckoAsyncSpa", "_connect")
-    ping_key = None
-    from ..facts import started_tasks
-    for a, _name, key, _n in started_tasks(repo, con):
-        if isinstance(a, ast.Call) and call_name(a) == "_ping_loop":
-            ping_key = key
+    from ..facts import connection_tasks
+    ping_key = next((t["key"] for t in connection_tasks(repo) if t["coroutine"] == "_ping_loop"), None)   # _connect interpreted
     ctx.ob(rule, "ping-loop::task-key", isinstance(ping_key, str), "cannot determine the task key of the ping loop", con.loc)
     selfc = [n for n, c in gsd.nodes_calling("cancel_key_tasks") if c.args and repo.try_fold(c.args[0], sd.mod, sd.cls) == ping_key]
     for cn in selfc:
